@@ -262,6 +262,7 @@ struct Extractor {
       if (const FunctionDecl *FD = C->getDirectCallee()) {
         O["fn"] = FD->getNameAsString();
         if (FD->getBuiltinID()) O["builtin"] = true;
+        if (FD->isNoReturn()) O["noreturn"] = true;
       } else {
         O["fn"] = nullptr;
         O["fe"] = E(C->getCallee());
